@@ -16,6 +16,9 @@ OBLIGATIONS = [
     "Pkgcore.C41.parallelism_enough",
     "Pkgcore.C41.map_async_every_item_once",
     "Pkgcore.C41.zero_threads_counterexample",
+    "Pkgcore.C41.later_call_every_item_once",
+    "Pkgcore.C41.failed_call_at_most_once",
+    "Pkgcore.C41.regen_every_pkg_once",
 ]
 TECHNIQUE = ("Lean 4 theorems about a transition-system model of map_async (all interleavings of the atomic queue/worker steps) + runs of the real "
              "map_async with an instrumented queue whose event traces are replayed step by step through the model")
@@ -24,10 +27,15 @@ TRUSTED = [
     "threading.Thread.start/join; the queue subclass that records put/get events inside the queue's own critical section (installed from outside for the run)",
 ]
 ASSUMPTIONS = [
-    "the worker function does not raise and exhausts its iterator; the input iterable does not raise (so the kill event stays clear)",
+    "exactly-once is claimed for calls whose worker function does not raise and exhausts its iterator and whose input iterable does not raise; calls that "
+    "break this (iterable raising at any position — modelled: kill event, at-most-once —, worker function raising or stopping early — not modelled) occur "
+    "in the histories only as predecessors of the calls that are checked",
     "worker functions yield their results (generator style) or return None, as both call sites do",
 ]
-RULE = ("runs of the real map_async under sys.setswitchinterval(1e-6): 0-40 items (with duplicates), sized and unsized iterables, a few lazy generators stalling 0.3-0.6 s before the first item or between items, threads in "
+RULE = ("one process making call after call of the real map_async under sys.setswitchinterval(1e-6), about one call in twelve a failing one (input iterable raising "
+        "at a random position, worker function raising, worker function returning early) followed by ordinary calls; regen_repository called through its "
+        "public signature on fake repositories (0-400 packages, thorough up to 3000, 1-8 threads, sized and lazy package lists, helpers failing with "
+        "MetadataException / OSError / ValueError, repositories with and without a regen helper); per call: 0-40 items (with duplicates), sized and unsized iterables, a few lazy generators stalling 0.3-0.6 s before the first item or between items, threads in "
         "{None, -3 … 9}, worker functions that yield / sleep / spin at random points (generator style) or consume everything and return None; the recorded "
         "put/get/finish trace is replayed through the Lean transition function; non-trivial = at least 2 workers each handled an item")
 
@@ -35,6 +43,124 @@ RULE = ("runs of the real map_async under sys.setswitchinterval(1e-6): 0-40 item
 class _Rec:
     def __init__(self):
         self.log = []
+
+
+class _Boom(Exception):
+    pass
+
+
+class _SizedRaiser:
+    """a sized input whose iteration raises at a given position"""
+
+    def __init__(self, seq, at, raising):
+        self.seq, self.at, self.raising = list(seq), at, raising
+
+    def __len__(self):
+        return len(self.seq)
+
+    def __iter__(self):
+        return self.raising(self.seq, self.at)
+
+
+class _Pkg:
+    def __init__(self, i, outcome, seen, lock):
+        self.i, self.cpvstr, self.outcome, self._seen, self._lock = i, f"cat/pkg{i}-1", outcome, seen, lock
+
+    def regen(self):
+        with self._lock:
+            self._seen.append((self.i, threading.get_ident()))
+        if self.outcome == "metadata":
+            from pkgcore.package.errors import MetadataException
+            raise MetadataException(self, "keywords", "unparsable")
+        if self.outcome == "oserror":
+            raise OSError(f"cannot regen {self.cpvstr}")
+        if self.outcome == "valueerror":
+            raise ValueError(self.cpvstr)
+        return ("x86",)
+
+    @property
+    def keywords(self):          # what regen_repository falls back to for a repository without a regen helper
+        return self.regen()
+
+
+def _regen_section(ctx, rng, rec, faults_so_far):
+    """regen_repository through its public signature: every package regenerated exactly once, every error handed back"""
+    from pkgcore.operations.regen import regen_repository
+
+    ncalls = ctx.n(45, 500)
+    done = 0
+    for ri in range(ncalls):
+        k = rng.random()
+        npk = rng.choice([0, 1, 2, 3, 7, 16, 31, 33, 64, 100, 129, 257]) if k < 0.5 else rng.randint(0, 400) if k < 0.95 or ctx.tier != "thorough" else rng.randint(400, 3000)
+        threads = rng.choice([1, 1, 2, 2, 3, 4, 8])
+        sized = rng.random() < 0.7
+        with_helper = rng.random() < 0.75
+        seen, lock, factory_calls = [], threading.Lock(), []
+        pkgs = [_Pkg(i, rng.choice(["ok"] * 17 + ["metadata", "oserror", "valueerror"]), seen, lock) for i in range(npk)]
+        if npk and rng.random() < 0.5:
+            pkgs[-1].outcome = rng.choice(["oserror", "valueerror"])          # the last package fails: its error must come back too
+
+        class Repo:
+            pass
+
+        repo = Repo()
+        extra = {"force": True} if rng.random() < 0.3 else {}
+        if with_helper:
+            def _regen_operation_helper(**kwargs):
+                factory_calls.append(kwargs)
+                return lambda pkg: pkg.regen()
+            repo._regen_operation_helper = _regen_operation_helper
+        rec.log = []
+        case = {"regen_repository": {"packages": npk, "threads": threads, "sized": sized, "repo_has_helper": with_helper,
+                                     "failing": {p.cpvstr: p.outcome for p in pkgs if p.outcome != "ok"}},
+                "failing_calls_before": list(faults_so_far[-3:])}
+        if ri in (3, 17) or rng.random() < 0.06:
+            # a package scan that dies half-way (history for the calls that follow): the exception must come out
+            at = rng.randint(0, npk)
+
+            def scan():
+                for pos, p in enumerate(pkgs):
+                    if pos == at:
+                        raise _Boom("package scan")
+                    yield p
+                raise _Boom("package scan")
+            faults_so_far.append({"regen_call": ri, "kind": "package iterator raises", "at": at})
+            ctx.count("fault_regen_scan_raises")
+            try:
+                list(regen_repository(repo, scan(), None, threads=threads, **extra))
+                ctx.mismatch(case, "the exception of the package iterator was not re-raised by regen_repository")
+            except _Boom:
+                pass
+            except Exception as e:
+                ctx.violation(case, f"regen_repository raised {type(e).__name__}: {e}")
+            if (collections.Counter(i for i, _ in seen) - collections.Counter(range(at))):
+                ctx.violation(case, "the failing regen call regenerated packages more often than the scan delivered them")
+            continue
+        try:
+            errors = list(regen_repository(repo, pkgs if sized else iter(pkgs), None, threads=threads, **extra))
+        except Exception as e:
+            ctx.violation(case, f"regen_repository raised {type(e).__name__}: {e}")
+            continue
+        done += 1
+        workers = len({t for _, t in seen})
+        ctx.case(case, workers >= 2, key=str(case))
+        ctx.count("regen_pkgs_%s" % ("0" if npk == 0 else "1-15" if npk < 16 else "16-99" if npk < 100 else "100-399" if npk < 400 else "400+"))
+        ctx.count("regen_threads_%d" % threads)
+        got = collections.Counter(i for i, _ in seen)
+        want = collections.Counter(range(npk))
+        if got != want:
+            never = sorted((want - got).elements())
+            twice = sorted((got - want).elements())
+            ctx.violation(case, f"packages never regenerated: {[pkgs[i].cpvstr for i in never][:12]}{' …' if len(never) > 12 else ''} ({len(never)}); "
+                                f"regenerated more than once: {[pkgs[i].cpvstr for i in twice][:12]} ({len(twice)})")
+        got_err = collections.Counter((p.cpvstr, type(e).__name__) for p, e in errors)
+        want_err = collections.Counter((p.cpvstr, {"oserror": "OSError", "valueerror": "ValueError"}[p.outcome]) for p in pkgs if p.outcome in ("oserror", "valueerror"))
+        if got_err != want_err:
+            ctx.violation(case, f"errors handed back {sorted(got_err.elements())[:12]} differ from the failures of the regeneration; "
+                                f"lost: {sorted((want_err - got_err).elements())[:12]}, unexpected: {sorted((got_err - want_err).elements())[:12]}")
+        if with_helper and any(kw != extra for kw in factory_calls):
+            ctx.mismatch(case, f"the regen helper factory was called with {factory_calls}, expected {extra}")
+    return done
 
 
 def run(ctx):
@@ -59,12 +185,15 @@ def run(ctx):
     real_queue_mod = thread_pool.queue
     old_switch = sys.getswitchinterval()
     cases, reqs = [], []
+    faults_so_far = []
+    old_hook = threading.excepthook
     t_end = time.time() + ctx.n(14, 240)
     nruns = ctx.n(1500, 30000)
     n_lazy = ctx.n(4, 40)
     try:
         thread_pool.queue = shim
         sys.setswitchinterval(1e-6)
+        threading.excepthook = lambda args: None      # worker functions that raise on purpose: no traceback noise
         for ci in range(nruns):
             if time.time() > t_end:
                 break
@@ -76,6 +205,12 @@ def run(ctx):
             delays = [rng.random() for _ in range(64)]
             rec.log = []
             handled_py = collections.defaultdict(list)
+            # histories: now and then a call that fails — the iterable raises at some position, the worker function raises or
+            # returns early — and then ordinary calls again; what an ordinary call does must not depend on what came before
+            fault = None
+            if ci >= n_lazy and (rng.random() < 0.08 or ci in (n_lazy + 2, n_lazy + 11)):
+                fault = rng.choice(["iter_raises", "iter_raises", "functor_raises", "functor_stops"])
+            fault_at = rng.randint(0, nitems) if fault else None
 
             def pause(k):
                 d = delays[k % 64]
@@ -98,6 +233,11 @@ def run(ctx):
                     pause(k * 7 + x)
                     if x % 3:
                         yield x + 1000
+                    if fault == "functor_raises" and k > fault_at % 3:
+                        raise _Boom("worker function")
+                    if fault == "functor_stops" and k > fault_at % 3:
+                        return
+                rec.log.append(("end", me, None))
 
             def functor_none(it, tag):
                 me = threading.get_ident()
@@ -107,6 +247,11 @@ def run(ctx):
                     pause(k + x)
                     handled_py[me].append(x)
                     rec.log.append(("finish", me, x))
+                    if fault == "functor_raises" and k > fault_at % 3:
+                        raise _Boom("worker function")
+                    if fault == "functor_stops" and k > fault_at % 3:
+                        return None
+                rec.log.append(("end", me, None))
                 return None
 
             # a few lazy producers per run: generators that stall before the first item or between two items (a repo scan that
@@ -127,44 +272,110 @@ def run(ctx):
                         time.sleep(stalls[pos])
                     yield x
 
+            def raising(seq, at):
+                for pos, x in enumerate(seq):
+                    if pos == at:
+                        rec.log.append(("raise", None, None))
+                        raise _Boom("input iterable")
+                    yield x
+                rec.log.append(("raise", None, None))
+                raise _Boom("input iterable")
+
             iterable = list(items) if sized else (lazy(list(items), stalls) if stalls else iter(list(items)))
+            if fault == "iter_raises":
+                iterable = _SizedRaiser(items, fault_at, raising) if sized else raising(list(items), fault_at)
             kw = {} if threads is None and rng.random() < 0.5 else {"threads": threads}
+            raised = None
             try:
                 res = thread_pool.map_async(iterable, functor_gen if style == "gen" else functor_none, "tag", **kw)
+            except _Boom as e:
+                raised, res = str(e), ()
+                if fault != "iter_raises":
+                    ctx.violation({"items": items, "threads": threads, "sized": sized, "style": style, "fault": fault}, f"map_async raised {type(e).__name__}: {e}")
+                    continue
             except Exception as e:
-                ctx.violation({"items": items, "threads": threads, "sized": sized, "style": style}, f"map_async raised {type(e).__name__}: {e}")
+                ctx.violation({"items": items, "threads": threads, "sized": sized, "style": style, "fault": fault}, f"map_async raised {type(e).__name__}: {e}")
                 continue
             log = list(rec.log)
             results = list(res)
-            # worker indices in order of first appearance
+            # worker indices in order of first appearance; a worker whose iterator ends without a sentinel left because of the kill event
             idx = {}
             events = []
+            took_sentinel = {}
             for kind, who, item in log:
                 if kind == "put":
                     events.append(["put"])
+                elif kind == "raise":
+                    events.append(["raise"])
                 else:
                     if who not in idx:
                         idx[who] = len(idx)
+                    if kind == "end":
+                        if not took_sentinel.get(who):
+                            events.append(["quit", idx[who]])
+                        continue
+                    if kind == "get":
+                        took_sentinel[who] = item is None
                     events.append([kind, idx[who]])
             import multiprocessing
             want_threads = multiprocessing.cpu_count() if kw.get("threads") is None else kw["threads"]
-            case = {"items": items, "threads": kw.get("threads", "default"), "sized": sized, "style": style, "events": len(events),
-                    "producer_stalls": {str(k): round(v, 2) for k, v in stalls.items()}}
-            cases.append((case, items, style, sized, want_threads, len(idx), dict(handled_py), idx, results))
+            case = {"call": ci, "items": items, "threads": kw.get("threads", "default"), "sized": sized, "style": style, "events": len(events),
+                    "producer_stalls": {str(k): round(v, 2) for k, v in stalls.items()},
+                    "failing_calls_before": list(faults_so_far[-3:])}
+            if fault:
+                case["fault"] = {"kind": fault, "at": fault_at}
+                faults_so_far.append({"call": ci, "kind": fault, "at": fault_at})
+                ctx.count("fault_" + fault)
+                got = collections.Counter(x for v in handled_py.values() for x in v)
+                allowed = collections.Counter(items[:fault_at] if fault == "iter_raises" else items)
+                if got - allowed:
+                    ctx.violation(case, f"the failing call handed {sorted((got - allowed).elements())} to the worker function more often than the input delivers them")
+                if fault == "iter_raises" and raised is None:
+                    ctx.mismatch(case, "the exception of the input iterable was not re-raised by map_async")
+                if fault != "iter_raises":
+                    continue                  # worker functions that raise / stop early are outside the model: history only
+            if not fault:
+                # the property on the real run (whatever calls came before in this process)
+                got = sorted(x for v in handled_py.values() for x in v)
+                if got != sorted(items):
+                    ctx.violation(case, f"items handed to the worker function {got} differ from the input {sorted(items)}")
+                want_res = sorted(x + 1000 for x in items if x % 3) if style == "gen" else []
+                if sorted(results) != want_res:
+                    ctx.violation(case, f"results {sorted(results)} differ from the non-empty results of all items {want_res}")
+            cases.append((case, items, style, sized, want_threads, len(idx), dict(handled_py), idx, results, fault, fault_at))
             reqs.append({"cmd": "c41.par", "len": len(items) if sized else None, "threads": want_threads})
-            reqs.append(None)   # placeholder for the trace request, needs n from the model
-            reqs[-1] = {"cmd": "c41.trace", "items": items, "n": None, "events": events}
+            reqs.append({"cmd": "c41.xtrace" if fault else "c41.trace", "items": items, "n": None, "events": events})
+        regen_cases = _regen_section(ctx, rng, rec, faults_so_far)
     finally:
         thread_pool.queue = real_queue_mod
         sys.setswitchinterval(old_switch)
+        threading.excepthook = old_hook
 
     # first ask the model for the number of threads, then replay the traces with it
     pars = ctx.model([r for r in reqs if r["cmd"] == "c41.par"])
-    traces = [r for r in reqs if r["cmd"] == "c41.trace"]
+    traces = [r for r in reqs if r["cmd"] in ("c41.trace", "c41.xtrace")]
     for t, n in zip(traces, pars):
         t["n"] = n
     reps = ctx.model(traces)
-    for (case, items, style, sized, want_threads, nworkers, handled_py, idx, results), n, rep in zip(cases, pars, reps):
+    for (case, items, style, sized, want_threads, nworkers, handled_py, idx, results, fault, fault_at), n, rep in zip(cases, pars, reps):
+        if fault:
+            # a call whose input raised: only the model is compared (trace enabled step by step, kill set, the undelivered items dropped)
+            ctx.case(case, False, key=str(case))
+            ctx.traces += 1
+            if rep == "bad-op" or n == "bad-op":
+                ctx.mismatch(case, "driver rejected the request")
+            elif nworkers != n:
+                ctx.mismatch(case, f"{nworkers} worker threads took part, the model starts {n}")
+            elif not rep["ok"]:
+                ctx.mismatch(case, f"event {rep['failed_at']} of the recorded trace of the failing call is not enabled in the model")
+            elif not rep["terminal"] or not rep["kill"] or rep["dropped"] != items[fault_at:]:
+                ctx.mismatch(case, f"the model after the failing call: terminal={rep['terminal']} kill={rep['kill']} dropped={rep['dropped']} (expected {items[fault_at:]})")
+            else:
+                mh = [rep["handled"][i] for i in range(len(rep["handled"]))]
+                ph = [handled_py.get(w, []) for w, _ in sorted(idx.items(), key=lambda kv: kv[1])] + [[] for _ in range(len(mh) - len(idx))]
+                if mh != ph:
+                    ctx.mismatch(case, f"per-worker items of the failing call differ: real {ph}, model {mh}")
+            continue
         busy_workers = sum(1 for v in handled_py.values() if v)
         ctx.case(case, busy_workers >= 2, key=str(case) + str(sorted(map(tuple, handled_py.values()))))
         ctx.count("threads_%s" % case["threads"])
@@ -174,13 +385,6 @@ def run(ctx):
         if case["producer_stalls"]:
             ctx.count("lazy_producer")
         ctx.traces += 1
-        # the property on the real run
-        got = sorted(x for v in handled_py.values() for x in v)
-        if got != sorted(items):
-            ctx.violation(case, f"items handed to the worker function {got} differ from the input {sorted(items)}")
-        want_res = sorted(x + 1000 for x in items if x % 3) if style == "gen" else []
-        if sorted(results) != want_res:
-            ctx.violation(case, f"results {sorted(results)} differ from the non-empty results of all items {want_res}")
         # the model: thread count and the trace
         if rep == "bad-op" or n == "bad-op":
             ctx.mismatch(case, "driver rejected the request")
@@ -201,12 +405,15 @@ def run(ctx):
         if style == "gen" and sorted(rep["results"]) != sorted(results):
             ctx.mismatch(case, f"results differ: real {sorted(results)}, model {sorted(rep['results'])}")
     ctx.extra["runs"] = len(cases)
+    ctx.extra["regen_repository_calls"] = regen_cases
 
 
 LEVEL_TEXT = ("Kernel-checked Lean 4 theorems about a transition-system model of map_async (producer, FIFO queue, n workers, sentinels): in every state "
               "reachable by any interleaving of the atomic steps, when the call returns each input item has been handed to the worker function exactly "
               "once and the result deque holds exactly the results of all items; no reachable state is stuck and every schedule terminates; map_async "
-              "always starts at least one worker when there is an item. The model is tied to the code by running the real map_async with an "
+              "always starts at least one worker when there is an item; with the kill event modelled, a call whose own input does not raise does so whatever "
+              "calls (also failed ones) came before it in the process, a call whose input raises hands no item over twice; regen_repository, which passes "
+              "its package list through unchanged, regenerates every package once and yields every error. The model is tied to the code by running the real map_async with an "
               "instrumented queue under a minimal thread switch interval and replaying every recorded event trace through the model's transition function.")
-LEVEL_NOTE = ("Partial: atomicity of queue.Queue and deque.append and the GIL are trusted; worker functions that raise or stop early, and iterables that "
-              "raise, are outside the model.")
+LEVEL_NOTE = ("Partial: atomicity of queue.Queue and deque.append and the GIL are trusted; worker functions that raise or stop early are outside the model "
+              "(they occur in the checked histories only as predecessors); for iterables that raise the model proves at-most-once, not exactly-once.")
